@@ -21,6 +21,7 @@ import (
 	"context"
 	"encoding/hex"
 	"fmt"
+	"io"
 	"os"
 	"os/exec"
 	"runtime"
@@ -213,8 +214,24 @@ func cmdKenforceChild() {
 	} else {
 		close(raceDone)
 	}
+	//   +edited the Policy VALUE that is loaded has been assembled and dumped before, when it still said something else
+	//          (same default action, same number of groups, other rules), and was then edited in place
+	pv := *c.policy
+	if strings.Contains(c.prober, "+edited") {
+		pv = seccomp.Policy{DefaultAction: c.policy.DefaultAction}
+		for _, g := range c.policy.Syscalls {
+			pv.Syscalls = append(pv.Syscalls, seccomp.SyscallGroup{Action: g.Action, Names: []string{"sched_yield"}})
+		}
+		pv.Assemble()
+		pv.Dump(io.Discard)
+		for i := range c.policy.Syscalls {
+			pv.Syscalls[i].Names = c.policy.Syscalls[i].Names
+			pv.Syscalls[i].NamesWithCondtions = c.policy.Syscalls[i].NamesWithCondtions
+			pv.Syscalls[i].Action = c.policy.Syscalls[i].Action
+		}
+	}
 	me := syscall.Gettid()
-	lerr := seccomp.LoadFilter(seccomp.Filter{NoNewPrivs: c.nnp, Flag: seccomp.FilterFlag(c.flags), Policy: *c.policy})
+	lerr := seccomp.LoadFilter(seccomp.Filter{NoNewPrivs: c.nnp, Flag: seccomp.FilterFlag(c.flags), Policy: pv})
 	<-raceDone
 	seccomp.ObserveSeccompVerif = nil
 	seccomp.SchedPointVerif = nil
